@@ -50,7 +50,7 @@ SignedK   == {"i8", "i16", "i32", "i64"}
 UnsignedK == {"u8", "u16", "u32", "u64"}
 IntK      == SignedK \cup UnsignedK
 FloatK    == {"f32", "f64"}
-PrimK     == IntK \cup FloatK \cup {"bool", "String", "unit"}
+PrimK     == IntK \cup FloatK \cup {"bool", "String", "unit", "IpAddr", "Prefix"}
 
 IsIntTy(t)     == t.k \in IntK \cup {"int", "sint"}
 IsNumericTy(t) == t.k \in IntK \cup FloatK \cup {"int", "sint", "float"}
@@ -214,6 +214,7 @@ Chk(P, i, env, exp) ==
     [] n.k = "bool"  -> R(Unify(P, exp, Bool), FALSE)
     [] n.k = "str"   -> R(Unify(P, exp, Str), FALSE)
     [] n.k = "unit"  -> R(Unify(P, exp, Unit), FALSE)
+    [] n.k = "ip"    -> R(Unify(P, exp, T("IpAddr")), FALSE)      \* an IPv4 / IPv6 address literal
     [] n.k = "var"   ->
          (* innermost local, else a global constant; functions, types and    *)
          (* unknown names are not values                                     *)
@@ -252,6 +253,12 @@ Chk(P, i, env, exp) ==
          ELSE
            LET l == Chk(P, n.l, env, AnyT) IN
            IF ~Ok(l) THEN Bad ELSE
+           (* the one operator whose result is not of its left operand's type: *)
+           (* IpAddr / u8 builds a Prefix (expr.rs binop, special case of Div) *)
+           IF n.op = "div" /\ l.t.k = "IpAddr" THEN
+             LET r == Chk(P, n.r, env, T("u8")) IN
+             IF ~Ok(r) THEN Bad ELSE R(Unify(P, exp, T("Prefix")), l.d \/ r.d)
+           ELSE
            LET rt == ArithRight(n.op, l.t) IN
            IF rt.k = "err" THEN Bad ELSE
            LET r == Chk(P, n.r, env, rt) IN
@@ -282,6 +289,9 @@ Chk(P, i, env, exp) ==
          IF Unify(P, exp, Unit).k = "err" \/ ~IsLocal(env, n.p[1]) THEN Bad ELSE
          LET ft == PathTy(P, LocalTy(env, n.p[1]), n.p, 2) IN
          IF ft.k = "err" THEN Bad ELSE
+         (* `p op= e` stores the result of `p op e` in p: the result must have p's   *)
+         (* type, which IpAddr / u8 (a Prefix) has not                              *)
+         IF n.op = "div" /\ ft.k = "IpAddr" THEN Bad ELSE
          LET rt == ArithRight(n.op, ft) IN
          IF rt.k = "err" THEN Bad ELSE
          LET r == Chk(P, n.e, env, rt) IN
